@@ -263,6 +263,7 @@ func predSearch(c searchCase, o *evid.Obs) error {
 		o.Tag("selects-all")
 	}
 
+	sharedIDTags(&c, refs[0], from, to, o)
 	orTags(&c, from, to, o)
 	numericTags(&c, from, to, o)
 
@@ -397,6 +398,59 @@ func portionTags(c *searchCase, ref []refeval.TQTraceResult, o *evid.Obs) {
 			o.Tag("later-portion-newer")
 			return
 		}
+	}
+}
+
+// sharedIDTags: span ids repeating across traces. "decisive" = a span id is carried by a
+// matched span of a selected trace and by an in-window span of another trace that is not
+// matched (a lookup by span_id alone would pick the foreign span up), with at least two
+// selected traces whose matched span ids differ.
+func sharedIDTags(c *searchCase, ref []refeval.TQTraceResult, from, to int64, o *evid.Obs) {
+	owners := map[string]int{}
+	for _, tr := range c.DB.Traces {
+		for _, sp := range tr.Spans {
+			owners[sp.ID]++
+		}
+	}
+	sharedAny := false
+	for _, n := range owners {
+		if n > 1 {
+			sharedAny = true
+		}
+	}
+	if !sharedAny {
+		return
+	}
+	o.Tag("span-ids-repeat-across-traces")
+	matched := map[string]bool{} // span ids matched somewhere
+	sets := map[string]bool{}
+	nsel := 0
+	for _, t := range ref {
+		if t.State != refeval.TQYes {
+			continue
+		}
+		nsel++
+		sets[strings.Join(t.Spans, ",")] = true
+		for _, id := range t.Spans {
+			matched[id] = true
+		}
+	}
+	foreign := false
+	for ti, tr := range c.DB.Traces {
+		mine := map[string]bool{}
+		if ref[ti].State == refeval.TQYes {
+			for _, id := range ref[ti].Spans {
+				mine[id] = true
+			}
+		}
+		for _, sp := range tr.Spans {
+			if sp.TS >= from && sp.TS < to && matched[sp.ID] && !mine[sp.ID] {
+				foreign = true
+			}
+		}
+	}
+	if foreign && nsel >= 2 && len(sets) >= 2 {
+		o.Tag("span-ids-repeat:decisive")
 	}
 }
 
